@@ -30,6 +30,8 @@ pub struct TemplateWorld {
     pub log: bool,
     /// step kinds at least one of which must have executed for the run to count as non-trivial
     pub key_steps: &'static [&'static str],
+    /// some runs terminate on `evaluations(e) | iterations(n)` instead of `iterations(n)`
+    pub compound_term: bool,
 }
 
 impl World for TemplateWorld {
@@ -44,6 +46,16 @@ impl World for TemplateWorld {
         let penalty = g.chance(self.penalty);
         let opts = GenOpts { penalty, max_iters: tier.pick(self.max_iters.0, self.max_iters.1), evaluations_term: self.evaluations_term, log: self.log };
         let mut case = gen_case(&mut g, kind, &opts);
+        if self.compound_term && g.chance(0.15) {
+            if let (Term::Iterations(n), Some(np)) = (case.term, case.params.get("num_particles")) {
+                // a compound loop condition whose second operand drives the iteration progress;
+                // the evaluation budget is used up within the n passes ((k+1) * particles
+                // evaluations after pass k), so the progress stays within [0, 1]
+                if n >= 1 {
+                    case.term = Term::Either { evals: g.below(n as usize * *np as usize + 1) as u32, iters: n };
+                }
+            }
+        }
         let mut fg = rng::stream(run_seed, "faults");
         case.clone_config = fg.chance(0.1);
         case.stale_state = fg.chance(0.15);
@@ -61,7 +73,7 @@ impl World for TemplateWorld {
             }
             FaultMix::SwarmResize => {
                 if fg.chance(0.2) {
-                    let iters = match case.term { Term::Iterations(n) => n, Term::Evaluations(_) => 4 };
+                    let iters = match case.term { Term::Iterations(n) | Term::Either { iters: n, .. } => n, Term::Evaluations(_) => 4 };
                     case.fault = TFault::SwarmResize { at_iter: fg.below(iters.max(1) as usize) as u32, grow: fg.chance(0.4), first: fg.chance(0.5) };
                 }
             }
@@ -142,7 +154,7 @@ fn mk<'a>(id: &'a str, batch: &'a str, seed: u64, tier: Tier, runs: u64, known: 
 }
 
 pub fn run_c05(tier: Tier, seed: u64, known: &KnownFindings) -> CheckReport {
-    let w = TemplateWorld { prop: "C05", world_name: "templates-c05", kinds: all_kinds(), penalty: 0.4, faults: FaultMix::None, max_iters: (12, 40), evaluations_term: true, log: true, key_steps: &[] };
+    let w = TemplateWorld { prop: "C05", world_name: "templates-c05", kinds: all_kinds(), penalty: 0.4, faults: FaultMix::None, max_iters: (12, 40), evaluations_term: true, log: true, compound_term: false, key_steps: &[] };
     let b = run_batch(&w, &mk("C05", "templates-sequential", seed, tier, tier.pick(60_000, 1_500_000), known));
     let bp = run_batch(&crate::checks::c08::SeqVsPar { prop: "C05", name: "seq-vs-par-c05" }, &mk("C05", "templates-parallel-evaluator", seed, tier, tier.pick(1_500, 60_000), known));
     let bi = run_batch(&crate::checks::indiv::IndividualHistories, &mk("C05", "individual-histories", seed, tier, tier.pick(300_000, 5_000_000), known));
@@ -152,7 +164,7 @@ pub fn run_c05(tier: Tier, seed: u64, known: &KnownFindings) -> CheckReport {
 }
 
 pub fn run_c06(tier: Tier, seed: u64, known: &KnownFindings) -> CheckReport {
-    let w = TemplateWorld { prop: "C06", world_name: "templates-c06", kinds: all_kinds(), penalty: 0.3, faults: FaultMix::Evaluator, max_iters: (12, 40), evaluations_term: true, log: false, key_steps: &["PopulationEvaluator"] };
+    let w = TemplateWorld { prop: "C06", world_name: "templates-c06", kinds: all_kinds(), penalty: 0.3, faults: FaultMix::Evaluator, max_iters: (12, 40), evaluations_term: true, log: false, compound_term: false, key_steps: &["PopulationEvaluator"] };
     let b = run_batch(&w, &mk("C06", "templates-sequential", seed, tier, tier.pick(120_000, 3_000_000), known));
     let bp = run_batch(&crate::checks::c08::SeqVsPar { prop: "C06", name: "seq-vs-par-c06" }, &mk("C06", "templates-parallel-evaluator", seed, tier, tier.pick(1_500, 60_000), known));
     let bi = run_batch(&EvalIds, &mk("C06", "evaluator-identifiers", seed, tier, tier.pick(50_000, 1_000_000), known));
@@ -283,35 +295,35 @@ impl World for EvalIds {
 }
 
 pub fn run_c07(tier: Tier, seed: u64, known: &KnownFindings) -> CheckReport {
-    let w = TemplateWorld { prop: "C07", world_name: "templates-c07", kinds: all_kinds(), penalty: 0.4, faults: FaultMix::None, max_iters: (12, 40), evaluations_term: true, log: false, key_steps: &["BestIndividualUpdate", "ElitistArchiveUpdate"] };
+    let w = TemplateWorld { prop: "C07", world_name: "templates-c07", kinds: all_kinds(), penalty: 0.4, faults: FaultMix::None, max_iters: (12, 40), evaluations_term: true, log: false, compound_term: false, key_steps: &["BestIndividualUpdate", "ElitistArchiveUpdate"] };
     let b = run_batch(&w, &mk("C07", "templates-sequential", seed, tier, tier.pick(200_000, 4_000_000), known));
-    let wa = TemplateWorld { prop: "C07", world_name: "templates-c07", kinds: vec![Kind::GaArchive, Kind::EsArchive], penalty: 0.4, faults: FaultMix::None, max_iters: (12, 40), evaluations_term: false, log: false, key_steps: &["ElitistArchiveUpdate"] };
+    let wa = TemplateWorld { prop: "C07", world_name: "templates-c07", kinds: vec![Kind::GaArchive, Kind::EsArchive], penalty: 0.4, faults: FaultMix::None, max_iters: (12, 40), evaluations_term: false, log: false, compound_term: false, key_steps: &["ElitistArchiveUpdate"] };
     let b2 = run_batch(&wa, &mk("C07", "archive-assemblies", seed, tier, tier.pick(60_000, 1_500_000), known));
     report("C07", tier, seed, "at every best-individual update: exists iff existed or population non-empty, <= min(population), <= before, replaced only by a strictly better member of the population; at run end for every template: reported best == minimum of the objective-call log; elitist archive (ga/es assembled with ElitistArchiveUpdate(k), k in {0,1,2,5,20}, and ElitistArchiveIntoPopulation): archived values == k smallest of (previous archive + population), members were shown, re-insertion leaves count max(before, 1); penalty regions supply ties at +inf; non-trivial = at least one update step executed", vec![b, b2], &[])
 }
 
 pub fn run_c16(tier: Tier, seed: u64, known: &KnownFindings) -> CheckReport {
-    let w = TemplateWorld { prop: "C16", world_name: "templates-c16", kinds: SHIPPED.to_vec(), penalty: 0.0, faults: FaultMix::None, max_iters: (40, 120), evaluations_term: false, log: true, key_steps: &[] };
+    let w = TemplateWorld { prop: "C16", world_name: "templates-c16", kinds: SHIPPED.to_vec(), penalty: 0.0, faults: FaultMix::None, max_iters: (40, 120), evaluations_term: false, log: true, compound_term: false, key_steps: &[] };
     let b = run_batch(&w, &mk("C16", "templates-valid-parameters", seed, tier, tier.pick(250_000, 6_000_000), known));
-    let w2 = TemplateWorld { prop: "C16", world_name: "templates-c16", kinds: SHIPPED.to_vec(), penalty: 0.0, faults: FaultMix::ExtremeDraw, max_iters: (40, 120), evaluations_term: false, log: false, key_steps: &[] };
+    let w2 = TemplateWorld { prop: "C16", world_name: "templates-c16", kinds: SHIPPED.to_vec(), penalty: 0.0, faults: FaultMix::ExtremeDraw, max_iters: (40, 120), evaluations_term: false, log: false, compound_term: false, key_steps: &[] };
     let b2 = run_batch(&w2, &mk("C16", "templates-extreme-draws", seed, tier, tier.pick(120_000, 3_000_000), known));
     report("C16", tier, seed, "one case = (one of the 21 shipped template constructors, parameters drawn from its documented valid ranges incl. boundaries: population 1-2, tournament = population, probabilities 0 and 1, y in {1,2}, small v_max, very unequal distances; instance; n in 0..120 iterations; seed); no failing fault, no penalty regions; oracle: run returns Ok without panic, iteration counter == n, n+1 condition tests, stack height at pass end == at pass begin for every pass of every loop, one population at the end, population size after every pass within the template's prescription; the extreme-draw batch forces one word of the random stream to 0 or u64::MAX (legal outputs); non-trivial = at least one step executed", vec![b, b2], &[])
 }
 
 pub fn run_c18(tier: Tier, seed: u64, known: &KnownFindings) -> CheckReport {
-    let w = TemplateWorld { prop: "C18", world_name: "templates-c18", kinds: vec![Kind::Pso], penalty: 0.2, faults: FaultMix::SwarmResize, max_iters: (25, 80), evaluations_term: false, log: false, key_steps: &["ParticleVelocitiesUpdate"] };
+    let w = TemplateWorld { prop: "C18", world_name: "templates-c18", kinds: vec![Kind::Pso], penalty: 0.2, faults: FaultMix::SwarmResize, max_iters: (25, 80), evaluations_term: false, log: false, compound_term: true, key_steps: &["ParticleVelocitiesUpdate"] };
     let b = run_batch(&w, &mk("C18", "pso-runs", seed, tier, tier.pick(150_000, 3_000_000), known));
     report("C18", tier, seed, "PSO template runs over swarm sizes 1..12, dimension 1..5, c1,c2 in {0} u (0,3], weights in [0,1.2], v_max from 1e-3 to 10 domain widths; after every velocity update: |v| <= v_max, x_after == x_before + v_after exactly, v_after within the interval the update rule allows for the STORED inertia weight (an equality when c1 = c2 = 0); after the linear mapping: weight == start + (end-start)*progress exactly; personal best == best value the particle was ever evaluated at, never worse; global best value == min personal best; the three collections have equal length after every step; non-trivial = at least one velocity update executed", vec![b], &[])
 }
 
 pub fn run_c19(tier: Tier, seed: u64, known: &KnownFindings) -> CheckReport {
-    let w = TemplateWorld { prop: "C19", world_name: "templates-c19", kinds: vec![Kind::AntSystem, Kind::Mmas], penalty: 0.0, faults: FaultMix::ExtremeDraw, max_iters: (60, 200), evaluations_term: false, log: false, key_steps: &["AcoGeneration"] };
+    let w = TemplateWorld { prop: "C19", world_name: "templates-c19", kinds: vec![Kind::AntSystem, Kind::Mmas], penalty: 0.0, faults: FaultMix::ExtremeDraw, max_iters: (60, 200), evaluations_term: false, log: false, compound_term: false, key_steps: &["AcoGeneration"] };
     let b = run_batch(&w, &mk("C19", "aco-runs", seed, tier, tier.pick(120_000, 2_500_000), known));
     report("C19", tier, seed, "both ACO templates over 2..8 cities, distance matrices incl. ratios up to 1e12, 0..8 ants, alpha,beta in [0,5], rho in [0,1], bounds, up to 200 iterations (long-evaporated trails), extreme draws; after generation: ants+1 tours, each a permutation of all cities starting at 0, unevaluated; after update: pm_after == (1-rho)*pm_before + deposits recomputed from the rewarded tours on exactly the consecutive-city edges in both directions (relative tolerance 1e-9), symmetric, finite, >= 0, max-min: within bounds; non-trivial = at least one generation executed", vec![b], &[])
 }
 
 pub fn run_c20(tier: Tier, seed: u64, known: &KnownFindings) -> CheckReport {
-    let w = TemplateWorld { prop: "C20", world_name: "templates-c20", kinds: vec![Kind::Cro], penalty: 0.0, faults: FaultMix::None, max_iters: (60, 300), evaluations_term: false, log: false, key_steps: &["OnWallIneffectiveCollisionUpdate", "DecompositionUpdate", "IntermolecularIneffectiveCollisionUpdate", "SynthesisUpdate"] };
+    let w = TemplateWorld { prop: "C20", world_name: "templates-c20", kinds: vec![Kind::Cro], penalty: 0.0, faults: FaultMix::None, max_iters: (60, 300), evaluations_term: false, log: false, compound_term: false, key_steps: &["OnWallIneffectiveCollisionUpdate", "DecompositionUpdate", "IntermolecularIneffectiveCollisionUpdate", "SynthesisUpdate"] };
     let b = run_batch(&w, &mk("C20", "cro-runs", seed, tier, tier.pick(100_000, 2_000_000), known));
     let bp = run_batch(&crate::checks::prepared::Reactions, &mk("C20", "prepared-reactions", seed, tier, tier.pick(400_000, 6_000_000), known));
     report("C20", tier, seed, "prepared-reactions: one case = one elementary-reaction update executed on a hand-built state (main population of 1..6 molecules with objective values and kinetic energies from grids, equal individuals allowed, reactants at chosen indices incl. the second before the first, products whose energies sit just below / at / just above the reactants' total, buffer in {0, 0.01, 1, 100}); same ledger, sign, alignment, pairing and stack oracle. cro-runs: CRO template runs over its nine parameters (buffer 0, initial KE 0, alpha 0, large beta, mole_coll in {0,1} included), up to 300 iterations; around every reaction update: sum of objective values + kinetic energies + buffer unchanged within 1e-9 relative, no negative kinetic energy or buffer, one molecule record per individual, uninvolved (individual, molecule) pairs unchanged and in order, exactly two populations consumed; non-trivial = at least one reaction update executed", vec![b, bp], &[])
